@@ -35,7 +35,7 @@ theorem setupChain_clean (P : Project) (g : G) (cfg : Cfg) (s : Sess) (t : TaskS
   have e3 : setupImpl P g cfg s t "persist" = .none := by
     unfold setupImpl
     simp only [show ("persist" == "skipping") = false by decide, show ("persist" == "persist") = true by decide, hp,
-      Bool.false_eq_true, if_false, if_true]
+      Bool.false_and, Bool.false_eq_true, if_false, if_true]
   have e4 : setupImpl P g cfg s t "execute" =
       (match scan P g s.w t.id cfg.force (neighbours g t.id) with
         | .missing => .error
@@ -195,30 +195,30 @@ theorem foldl_addEdge_nodes_mono {α} (l : List α) (f h : α → Nat) (g : G) (
   | nil => exact hx
   | cons a l ih => exact ih _ (addEdge_nodes_mono g _ _ x hx)
 
-theorem baseStep_nodes_mono (g : G) (t : TaskSpec) (x : Nat) (hx : x ∈ g.nodes) : x ∈ (baseStep g t).nodes := by
-  unfold baseStep
+theorem crBaseStep_nodes_mono (g : G) (t : TaskSpec) (x : Nat) (hx : x ∈ g.nodes) : x ∈ (crBaseStep g t).nodes := by
+  unfold crBaseStep
   simp only []
   apply foldl_addEdge_nodes_mono t.prods (fun _ => tv t.id) nv
   apply foldl_addEdge_nodes_mono t.deps nv (fun _ => tv t.id)
   exact addNode_nodes_mono g _ x hx
 
-theorem baseStep_self (g : G) (t : TaskSpec) : tv t.id ∈ (baseStep g t).nodes := by
-  unfold baseStep
+theorem crBaseStep_self (g : G) (t : TaskSpec) : tv t.id ∈ (crBaseStep g t).nodes := by
+  unfold crBaseStep
   simp only []
   apply foldl_addEdge_nodes_mono t.prods (fun _ => tv t.id) nv
   apply foldl_addEdge_nodes_mono t.deps nv (fun _ => tv t.id)
   exact addNode_mem g _
 
 theorem foldl_baseStep_nodes (l : List TaskSpec) (g0 : G) :
-    (∀ x ∈ g0.nodes, x ∈ (l.foldl baseStep g0).nodes) ∧ (∀ t ∈ l, tv t.id ∈ (l.foldl baseStep g0).nodes) := by
+    (∀ x ∈ g0.nodes, x ∈ (l.foldl crBaseStep g0).nodes) ∧ (∀ t ∈ l, tv t.id ∈ (l.foldl crBaseStep g0).nodes) := by
   induction l generalizing g0 with
   | nil => exact ⟨fun x hx => hx, fun t ht => by cases ht⟩
   | cons a l ih =>
-    obtain ⟨h1, h2⟩ := ih (baseStep g0 a)
-    refine ⟨fun x hx => h1 x (baseStep_nodes_mono g0 a x hx), ?_⟩
+    obtain ⟨h1, h2⟩ := ih (crBaseStep g0 a)
+    refine ⟨fun x hx => h1 x (crBaseStep_nodes_mono g0 a x hx), ?_⟩
     intro t ht
     rcases List.mem_cons.1 ht with rfl | ht
-    · exact h1 _ (baseStep_self g0 t)
+    · exact h1 _ (crBaseStep_self g0 t)
     · exact h2 t ht
 
 theorem afterStep_nodes_mono (g : G) (t : TaskSpec) (x : Nat) (hx : x ∈ g.nodes) : x ∈ (afterStep g t).nodes := by
@@ -249,7 +249,7 @@ theorem all_picked (F : BodyFn) {P : Project} {cfg cfg0 : Cfg} {g : G} {marks : 
   have hg := createDag_graph P cfg0 g marks hdag
   have hnode : tv t.id ∈ so.nodes := by
     rw [fromDag_nodes hso, List.mem_filter]
-    refine ⟨?_, isTaskV_tv _⟩
+    refine ⟨?_, cr_isTaskV_tv _⟩
     rw [hg]
     apply modifyDag_nodes_mono
     rw [baseGraph_eq]
